@@ -2,6 +2,9 @@ mod c03;
 mod cases;
 mod dev;
 mod exec;
+mod lawcheck;
+mod prims;
+mod tree;
 mod pool;
 mod refs;
 mod report;
@@ -52,6 +55,7 @@ fn main() {
             match id.as_str() {
                 "C03" => c03::run("C03", tier, seed),
                 "C05" => c03::run("C05", tier, seed),
+                "T" => tdebug(&pos, tier),
                 _ => {
                     eprintln!("unknown property {id}");
                     2
@@ -61,4 +65,34 @@ fn main() {
         _ => usage(),
     };
     std::process::exit(code);
+}
+
+fn tdebug(pos: &[String], tier: Tier) -> i32 {
+    let pat = pos.get(1).cloned().unwrap_or_default();
+    let t0 = std::time::Instant::now();
+    let (ma, prs) = prims::build_macros(if tier == Tier::Quick { 1 << 11 } else { 1 << 14 }, 1 << 9);
+    for (i, pr) in prs.iter().enumerate() {
+        let k = pr.grid.k();
+        let l = pr.res.cdf(k);
+        let mut worst = (0.0, 0.0, 0.0);
+        for j in 0..k {
+            let t = pr.grid.cps[j];
+            let f = if i == 0 { refs::phi(t) } else { refs::exp_cdf(t, 1.0) };
+            let d = (l[j] - f).abs();
+            if d > worst.0 { worst = (d, t, pr.res.err[j].min(pr.res.err_hi[j])); }
+        }
+        eprintln!("prim {} execs={} nodes={} resid={:e} bad={:e} words={:.4} maxdev={:e} at {} (err bound there {:e}) max err={:e} flat atoms={} t={:.1}s", i + 1, pr.cnt.execs, pr.cnt.nodes, pr.res.resid, pr.res.bad, pr.res.words, worst.0, worst.1, worst.2,
+            pr.res.err.iter().zip(pr.res.err_hi.iter()).map(|(a, b)| a.min(*b)).fold(0.0, f64::max), ma.flat[&((i + 1) as u8)].len(), t0.elapsed().as_secs_f64());
+    }
+    let macros = std::sync::Mutex::new(ma);
+    let cases = cases::all_cases(tier, 0);
+    use rayon::prelude::*;
+    let sel: Vec<&cases::Case> = cases.iter().filter(|c| c.label.contains(&pat) && c.in_law).collect();
+    let outs: Vec<lawcheck::LawOutcome> = sel.par_iter().filter_map(|c| lawcheck::check_case(c, &macros, tier)).collect();
+    for o in &outs {
+        println!("{:70} ok={} judged={} ratio={:.3} dev={:.2e} tol={:.2e} at={:.4e} maxdev={:.2e} resid={:.1e} bad={:.1e} words={:.3} vl={} execs={} nodes={} memo={} t={:.2}s {}",
+            o.label, o.ok, o.judged, o.worst_ratio, o.worst_dev, o.worst_tol, o.worst_at, o.max_abs_dev, o.resid, o.bad, o.words, o.vlevels, o.cnt.execs, o.cnt.nodes, o.cnt.memo_hits, o.wall_s, o.note);
+    }
+    eprintln!("total {:.1}s", t0.elapsed().as_secs_f64());
+    0
 }
